@@ -175,6 +175,49 @@ Proof.
 Qed.
 
 
+(* ... from ANY heap satisfying the invariants and any world, for either format_io - and the invariants hold again at the end: so the theorem
+   chains over the expressions of a program (main.main evaluates them one after the other in one process) *)
+Lemma inv_heap0 : inv heap0 [].
+Proof.
+  split; [|split].
+  - intros x _. unfold get; simpl. apply PositiveMap.gempty.
+  - intros x cl v Gx. unfold get in Gx; simpl in Gx. rewrite PositiveMap.gempty in Gx. discriminate.
+  - intros x [].
+Qed.
+Theorem machine_implements_spec_in fuel h w prog fio h' w' r d : inv h [] ->
+  spec_main_in fuel h w prog fio = Done h' w' r d ->
+  (exists q', reach (1 + d) (m_heap (init_in h w prog fio)) (PositiveMap.empty _) (m_stack (init_in h w prog fio)) (m_world (init_in h w prog fio))
+                    h' q' [Fr None (retc r) []] w') /\ inv h' [].
+Proof.
+  intros Hi. unfold spec_main_in, init_in. destruct (alloc h prog {| funs := []; args := [] |}) as [h1 t] eqn:Al. cbn [m_heap m_stack m_world].
+  intros Hs. destruct (sim_all fuel) as (_ & HC & _).
+  assert (Hinv : inv h1 []) by (assert (E : h1 = fst (alloc h prog {| funs := []; args := [] |})) by (rewrite Al; auto); subst h1; apply inv_alloc; exact Hi).
+  destruct (HC _ _ _ _ _ _ _ _ Hs Hinv) as (G & _ & I'). split; [|exact I'].
+  destruct (G (PositiveMap.empty _) None [] []) as (q' & R & _).
+  - intros a b L. unfold rlook in L. rewrite PositiveMap.gempty in L. discriminate.
+  - exists q'. exact R.
+Qed.
+Fixpoint many_ok (fuel:nat) (h:heap) (w:world) (progs:list ast) (fio:bool) : Prop :=
+  match progs with
+  | [] => True
+  | p :: rest =>
+      match spec_main_in fuel h w p fio with
+      | Done h' w' r d =>
+          (exists q', reach (1 + d) (m_heap (init_in h w p fio)) (PositiveMap.empty _) (m_stack (init_in h w p fio)) (m_world (init_in h w p fio)) h' q' [Fr None (retc r) []] w')
+          /\ match r with inl _ => many_ok fuel h' w' rest fio | inr _ => True end
+      | _ => True end
+  end.
+(* main.main on a whole program text: every expression the specification answers for is answered alike by the machine, each started in the
+   heap and the world the previous one ended in *)
+Theorem machine_implements_spec_many fuel progs fio : forall h w, inv h [] -> many_ok fuel h w progs fio.
+Proof.
+  induction progs as [|p rest IH]; intros h w Hi; cbn [many_ok]; auto.
+  destruct (spec_main_in fuel h w p fio) as [h' w' r d| |] eqn:S; auto.
+  destruct (machine_implements_spec_in fuel h w p fio h' w' r d Hi S) as (R & I'). split; [exact R|]. destruct r; auto.
+Qed.
+Corollary main_many_from_scratch fuel progs stdin disk fio : many_ok fuel heap0 (world_start stdin disk) progs fio.
+Proof. apply machine_implements_spec_many. apply inv_heap0. Qed.
+
 (* the machine WITH the explicit limit (interpret.py's MAX_STACK_SIZE): if the demand depth fits, it never reports Limit
    and finishes exactly like the specification *)
 Fixpoint lsteps (n:nat) (s:mstate) : mstate + outcome :=
